@@ -358,6 +358,28 @@ theorem map_strip_spaced (items : List Str) (h : ∀ x ∈ items, strip x = x) :
     calc r.map (strip ∘ fun s => ' ' :: s) = r.map id := List.map_congr_left this
       _ = r := by simp
 
+theorem parseAttr_formatAttr (as : Attrs) (h : attrsWF as = true) : parseAttr (formatAttr as) = .ok as := by
+  unfold parseAttr formatAttr
+  cases has : as with
+  | nil => simp [formatItems, joinWith]
+  | cons kv r =>
+    rw [← has]
+    have hitems : formatItems as ≠ [] := by
+      subst has
+      obtain ⟨k, vs⟩ := kv
+      cases vs <;> simp [formatItems]
+    obtain ⟨x, xs, hx⟩ := List.exists_cons_of_ne_nil hitems
+    have hxne : x ≠ [] := (item_props h (x := x) (by rw [hx]; exact List.mem_cons_self)).2.1
+    have hjoin : (joinWith [',', ' '] (formatItems as)).isEmpty = false := by
+      rw [hx]; simpa using joinWith_ne_nil _ x xs hxne
+    rw [hjoin]
+    simp only [Bool.false_eq_true, ↓reduceIte]
+    rw [splitOn_join _ hitems (fun y hy => (item_props h hy).2.2),
+      map_strip_spaced _ (fun y hy => (item_props h hy).1)]
+    obtain ⟨hnd, hwf⟩ := attrsWF_spec h
+    simpa using parseItems_format as [] hwf hnd (by intro kv _; rfl)
+
+
 /-! ### save decisions -/
 
 theorem outputTagsFrom_entries (f : Flags) (all es : List Entry) (adj : Nat) (done : List Str) :
@@ -636,7 +658,7 @@ theorem scanName_append (u t : Str) (k : Nat) (ht : tailMatch t = some k)
     simp only [scanName, h0, ih', List.length_cons]
     congr 1; omega
 
-theorem scanName_name (u t : Str) (k : Nat) (ht : tailMatch t = some k) (hne : u ≠ [])
+theorem scanName_name (u t : Str) (k : Nat) (ht : tailMatch t = some k) (_hne : u ≠ [])
     (hchars : ∀ c ∈ u, c ≠ '\'' ∧ isOpen c = false) (hlast : ∀ c, u.getLast? = some c → isPySpace c = false) :
     scanName (u ++ t) = (u, u.length + k) := by
   apply scanName_append u t k ht
@@ -786,6 +808,699 @@ theorem formatAttr_ne_nil (as : Attrs) (h : attrsWF as = true) (hne : as ≠ [])
   rw [hx]
   exact joinWith_ne_nil _ x xs hxne
 
+/-! ### reading a written row -/
+
+theorem lineDelim_spec {c : Char} (h : lineDelim c = false) :
+    c ≠ '{' ∧ c ≠ '}' ∧ c ≠ '[' ∧ c ≠ ']' ∧ c ≠ '<' := by
+  unfold lineDelim at h
+  simp only [Bool.or_eq_false_iff, beq_eq_false_iff_ne] at h
+  exact ⟨h.1.1.1.1, h.1.1.1.2, h.1.1.2, h.1.2, h.2⟩
+
+theorem descWF_spec {d : Str} (h : descWF (some d) = true) :
+    d ≠ [] ∧ noTag d = true ∧ ∀ c ∈ d, c ≠ '{' ∧ c ≠ '}' ∧ c ≠ '[' ∧ c ≠ ']' := by
+  unfold descWF at h
+  simp only [Bool.and_eq_true, Bool.not_eq_true', List.isEmpty_eq_false_iff, List.all_eq_true, bne_iff_ne] at h
+  exact ⟨h.1.1, h.1.2, fun c hc => ⟨(h.2 c hc).1.1.1, (h.2 c hc).1.1.2, (h.2 c hc).1.2, (h.2 c hc).2⟩⟩
+
+theorem nameWF_spec {n : Str} (h : nameWF n = true) :
+    n ≠ [] ∧ trimmed n = true ∧ ∀ c ∈ n, lineDelim c = false ∧ c ≠ '\'' := by
+  unfold nameWF at h
+  simp only [Bool.and_eq_true, Bool.not_eq_true', List.isEmpty_eq_false_iff, List.all_eq_true, bne_iff_ne] at h
+  exact ⟨h.1.1, h.1.2, fun c hc => ⟨(h.2 c hc).1, (h.2 c hc).2⟩⟩
+
+theorem sections_read (P name : Str) (as : Attrs) (desc : Option Str)
+    (hP : ∀ c ∈ P, lineDelim c = false) (has : attrsWF as = true)
+    (hv : (as.all fun kv => kv.2.all fun v => v.all (!lineDelim ·)) = true)
+    (hd : descWF desc = true) (ht : descTrimmed desc = true)
+    (hname : getTagName (P ++ extras (formatAttr as) desc) = some (name, P.length)) :
+    readEntry (P ++ extras (formatAttr as) desc) = .ok (name, as, desc) := by
+  have hac := formatAttr_chars as has hv
+  have hpa : parseAttr (formatAttr as) = .ok as := parseAttr_formatAttr as has
+  have hPo : ∀ (x : Char), (x = '{' ∨ x = '}' ∨ x = '[' ∨ x = ']') → ∀ c ∈ P, c ≠ x := by
+    intro x hx c hc e
+    have := lineDelim_spec (hP c hc)
+    rcases hx with rfl | rfl | rfl | rfl <;> simp_all
+  have hao : ∀ (x : Char), (x = '{' ∨ x = '}' ∨ x = '[' ∨ x = ']') → ∀ c ∈ formatAttr as, c ≠ x := by
+    intro x hx c hc e
+    have := lineDelim_spec (hac c hc)
+    rcases hx with rfl | rfl | rfl | rfl <;> simp_all
+  unfold readEntry
+  rw [hname]
+  cases desc with
+  | none =>
+    by_cases hne : as = []
+    · subst hne
+      have ha : formatAttr [] = [] := rfl
+      simp only [ha] at *
+      have e : P ++ extras [] none = P := by simp [extras]
+      rw [e]
+      have h1 := lineSection_absent P P.length '{' '}' (hPo _ (by simp)) (hPo _ (by simp))
+      have h2 := lineSection_absent P P.length '[' ']' (hPo _ (by simp)) (hPo _ (by simp))
+      simp [h1, h2, parseAttr]
+    · have hane := formatAttr_ne_nil as has hne
+      have hemp : (formatAttr as).isEmpty = false := by simpa using hane
+      have e : P ++ extras (formatAttr as) none = P ++ ([] ++ '{' :: (formatAttr as ++ '}' :: [])) := by
+        simp [extras, hemp]
+      rw [e]
+      have h1 := lineSection_found P [] (formatAttr as) [] '{' '}' (by decide)
+        (fun a h => ⟨hPo _ (by simp) a h, hPo _ (by simp) a h⟩) (by simp)
+        (fun a h => ⟨hao _ (by simp) a h, hao _ (by simp) a h⟩) (by simp) P.length rfl
+      have h2 := lineSection_absent (P ++ ([] ++ '{' :: (formatAttr as ++ '}' :: [])))
+        (([] : Str).length + 1 + (formatAttr as).length + P.length) '[' ']'
+        (by
+          intro a h
+          simp only [List.nil_append, List.mem_append, List.mem_cons, List.not_mem_nil, or_false] at h
+          rcases h with h | rfl | h | rfl
+          · exact hPo _ (by simp) a h
+          · decide
+          · exact hao _ (by simp) a h
+          · decide)
+        (by
+          intro a h
+          simp only [List.nil_append, List.mem_append, List.mem_cons, List.not_mem_nil, or_false] at h
+          rcases h with h | rfl | h | rfl
+          · exact hPo _ (by simp) a h
+          · decide
+          · exact hao _ (by simp) a h
+          · decide)
+      simp only [h1, hpa, h2]
+      simp
+  | some d =>
+    obtain ⟨hdne, _, hdc⟩ := descWF_spec hd
+    have hdemp : d.isEmpty = false := by simpa using hdne
+    have hdt : strip d = d := strip_trimmed (by simpa [descTrimmed] using ht)
+    by_cases hne : as = []
+    · subst hne
+      have ha : formatAttr [] = [] := rfl
+      simp only [ha] at *
+      have e : P ++ extras [] (some d) = P ++ ([] ++ '[' :: (d ++ ']' :: [])) := by
+        simp [extras, hdemp]
+      rw [e]
+      have h1 := lineSection_absent (P ++ ([] ++ '[' :: (d ++ ']' :: []))) P.length '{' '}'
+        (by
+          intro a h
+          simp only [List.nil_append, List.mem_append, List.mem_cons, List.not_mem_nil, or_false] at h
+          rcases h with h | rfl | h | rfl
+          · exact hPo _ (by simp) a h
+          · decide
+          · exact (hdc a h).1
+          · decide)
+        (by
+          intro a h
+          simp only [List.nil_append, List.mem_append, List.mem_cons, List.not_mem_nil, or_false] at h
+          rcases h with h | rfl | h | rfl
+          · exact hPo _ (by simp) a h
+          · decide
+          · exact (hdc a h).2.1
+          · decide)
+      have h2 := lineSection_found P [] d [] '[' ']' (by decide)
+        (fun a h => ⟨hPo _ (by simp) a h, hPo _ (by simp) a h⟩) (by simp)
+        (fun a h => ⟨(hdc a h).2.2.1, (hdc a h).2.2.2⟩) (by simp) P.length rfl
+      simp only [h1, parseAttr, h2]
+      simp [hdemp, hdt]
+    · have hane := formatAttr_ne_nil as has hne
+      have hemp : (formatAttr as).isEmpty = false := by simpa using hane
+      have e : P ++ extras (formatAttr as) (some d) =
+          P ++ ([] ++ '{' :: (formatAttr as ++ '}' :: (' ' :: '[' :: (d ++ [']'])))) := by
+        simp [extras, hemp, hdemp]
+      have e2 : P ++ ([] ++ '{' :: (formatAttr as ++ '}' :: (' ' :: '[' :: (d ++ [']'])))) =
+          (P ++ '{' :: formatAttr as) ++ (['}', ' '] ++ '[' :: (d ++ ']' :: [])) := by simp
+      rw [e]
+      have h1 := lineSection_found P [] (formatAttr as) (' ' :: '[' :: (d ++ [']'])) '{' '}' (by decide)
+        (fun a h => ⟨hPo _ (by simp) a h, hPo _ (by simp) a h⟩) (by simp)
+        (fun a h => ⟨hao _ (by simp) a h, hao _ (by simp) a h⟩)
+        (by
+          intro a h
+          simp only [List.mem_cons, List.mem_append, List.not_mem_nil, or_false] at h
+          rcases h with rfl | rfl | h | rfl
+          · decide
+          · decide
+          · exact ⟨(hdc a h).1, (hdc a h).2.1⟩
+          · decide) P.length rfl
+      have h2 := lineSection_found (P ++ '{' :: formatAttr as) ['}', ' '] d [] '[' ']' (by decide)
+        (by
+          intro a h
+          simp only [List.mem_append, List.mem_cons] at h
+          rcases h with h | rfl | h
+          · exact ⟨hPo _ (by simp) a h, hPo _ (by simp) a h⟩
+          · decide
+          · exact ⟨hao _ (by simp) a h, hao _ (by simp) a h⟩)
+        (by intro a h; simp only [List.mem_cons, List.not_mem_nil, or_false] at h; rcases h with rfl | rfl <;> decide)
+        (fun a h => ⟨(hdc a h).2.2.1, (hdc a h).2.2.2⟩) (by simp)
+        (([] : Str).length + 1 + (formatAttr as).length + P.length) (by simp; omega)
+      rw [← e2] at h2
+      simp only [h1, hpa, h2]
+      simp [hdemp, hdt]
+
+theorem tailMatch_end (Q S : Str) (hQ : Q = [] ∨ Q = quote3) (hS : S = [] ∨ S = [' ']) :
+    tailMatch (Q ++ S) = some (Q.length + S.length) := by
+  rcases hQ with rfl | rfl <;> rcases hS with rfl | rfl <;> decide
+
+theorem isOpen_spec {o : Char} (h : isOpen o = true) : o = '[' ∨ o = '{' := by
+  simpa [isOpen] using h
+
+theorem tailMatch_open (Q : Str) (hQ : Q = [] ∨ Q = quote3) (o x : Char) (rest : Str)
+    (ho : isOpen o = true) (hx : isOpen x = false) :
+    tailMatch (Q ++ ' ' :: o :: x :: rest) = some (Q.length + 1) := by
+  have s1 : isPySpace ' ' = true := by decide
+  have s2 : isPySpace '[' = false := by decide
+  have s3 : isPySpace '{' = false := by decide
+  have o1 : isOpen '[' = true := by decide
+  have o2 : isOpen '{' = true := by decide
+  have q1 : ('\'' == ' ') = false := by decide
+  rcases hQ with rfl | rfl <;> rcases isOpen_spec ho with rfl | rfl <;>
+    simp [tailMatch, quote3, List.isPrefixOf_cons_cons, List.takeWhile, List.dropWhile, s1, s2, s3, o1, o2, q1, hx]
+
+/-- a non-empty `extras` text starts with `{` or `[` followed by a character that is neither -/
+theorem extras_shape (as : Attrs) (desc : Option Str) (has : attrsWF as = true)
+    (hv : (as.all fun kv => kv.2.all fun v => v.all (!lineDelim ·)) = true) (hd : descWF desc = true)
+    (hne : extras (formatAttr as) desc ≠ []) :
+    ∃ o x rest, extras (formatAttr as) desc = o :: x :: rest ∧ isOpen o = true ∧ isOpen x = false := by
+  have hac := formatAttr_chars as has hv
+  have hopen : ∀ c, lineDelim c = false → isOpen c = false := by
+    intro c hc
+    have := lineDelim_spec hc
+    simp [isOpen, this.1, this.2.2.1]
+  by_cases hae : formatAttr as = []
+  · cases desc with
+    | none => simp [extras, hae] at hne
+    | some d =>
+      obtain ⟨hdne, _, hdc⟩ := descWF_spec hd
+      obtain ⟨c, t, rfl⟩ := List.exists_cons_of_ne_nil hdne
+      have hc := hdc c List.mem_cons_self
+      refine ⟨'[', c, t ++ [']'], by simp [extras, hae], by decide, ?_⟩
+      simp [isOpen, hc.2.2.1, hc.1]
+  · obtain ⟨c, t, hct⟩ := List.exists_cons_of_ne_nil hae
+    have hc := hopen c (hac c (by rw [hct]; exact List.mem_cons_self))
+    cases desc with
+    | none => exact ⟨'{', c, t ++ ['}'], by simp [extras, hct], by decide, hc⟩
+    | some d =>
+      by_cases hde : d = []
+      · exact ⟨'{', c, t ++ ['}'], by simp [extras, hct, hde], by decide, hc⟩
+      · have : d.isEmpty = false := by simpa using hde
+        exact ⟨'{', c, t ++ ['}'] ++ [' '] ++ '[' :: d ++ [']'], by simp [extras, hct, this], by decide, hc⟩
+
+theorem extras_chars (as : Attrs) (desc : Option Str) (has : attrsWF as = true)
+    (hv : (as.all fun kv => kv.2.all fun v => v.all (!lineDelim ·)) = true) (hd : descWF desc = true) :
+    Clean (extras (formatAttr as) desc) := by
+  have hac := formatAttr_chars as has hv
+  have hlt : ∀ c ∈ formatAttr as, c ≠ '<' := fun c hc => (lineDelim_spec (hac c hc)).2.2.2.2
+  have hA : ∀ c ∈ (if (formatAttr as).isEmpty then [] else '{' :: formatAttr as ++ ['}']), c ≠ '<' := by
+    intro c hc
+    split at hc
+    · simp at hc
+    · simp only [List.mem_append, List.mem_cons, List.not_mem_nil, or_false] at hc
+      rcases hc with (rfl | hc) | rfl
+      · decide
+      · exact hlt c hc
+      · decide
+  cases desc with
+  | none => exact clean_noLt _ (by simpa [extras] using hA)
+  | some d =>
+    by_cases hde : d = []
+    · subst hde; exact clean_noLt _ (by simpa [extras] using hA)
+    · obtain ⟨_, hnt, _⟩ := descWF_spec hd
+      have hdemp : d.isEmpty = false := by simpa using hde
+      have e : extras (formatAttr as) (some d) =
+          ((if (formatAttr as).isEmpty then [] else '{' :: formatAttr as ++ ['}']) ++
+            (if (formatAttr as).isEmpty then [] else [' ']) ++ ['[']) ++ d ++ [']'] := by
+        simp [extras, hdemp]
+      rw [e]
+      apply clean_desc _ d _ hnt
+      intro c hc
+      simp only [List.mem_append, List.mem_singleton] at hc
+      rcases hc with (hc | hc) | rfl
+      · exact hA c hc
+      · split at hc
+        · simp at hc
+        · simp at hc; subst hc; decide
+      · decide
+
+/-- reading back a cleaned row `pre ++ u ++ Q ++ S ++ extras`: `pre` the stars or the opening quotes,
+`u` the (padded) name, `Q` the closing quotes of a root line, `S` the blank before the extras -/
+theorem row_read (pre u Q S short : Str) (as : Attrs) (desc : Option Str)
+    (hsearch : ∀ t k, scanName (u ++ t) = (u, u.length + k) →
+      searchName (pre ++ (u ++ t)) 0 = some (u, pre.length + u.length + k))
+    (hune : u ≠ []) (hchars : ∀ c ∈ u, c ≠ '\'' ∧ isOpen c = false)
+    (hlast : ∀ c, u.getLast? = some c → isPySpace c = false) (hstrip : strip u = short) (hsne : short ≠ [])
+    (hQ : Q = [] ∨ Q = quote3)
+    (hS : (extras (formatAttr as) desc = [] → S = [] ∨ S = [' ']) ∧ (extras (formatAttr as) desc ≠ [] → S = [' ']))
+    (hpre : ∀ c ∈ pre, lineDelim c = false) (hu : ∀ c ∈ u, lineDelim c = false)
+    (has : attrsWF as = true) (hv : (as.all fun kv => kv.2.all fun v => v.all (!lineDelim ·)) = true)
+    (hd : descWF desc = true) (ht : descTrimmed desc = true)
+    (he : hasSub extendHere (pre ++ (u ++ (Q ++ S ++ extras (formatAttr as) desc))) = false)
+    (hz : hasSub zwEntity (pre ++ (u ++ (Q ++ S ++ extras (formatAttr as) desc))) = false) :
+    readEntry (pre ++ (u ++ (Q ++ S ++ extras (formatAttr as) desc))) = .ok (short, as, desc) := by
+  have htm : tailMatch (Q ++ S ++ extras (formatAttr as) desc) = some (Q.length + S.length) := by
+    by_cases hex : extras (formatAttr as) desc = []
+    · rw [hex]; simpa using tailMatch_end Q S hQ (hS.1 hex)
+    · obtain ⟨o, x, rest, e, ho, hx⟩ := extras_shape as desc has hv hd hex
+      rw [hS.2 hex, e]
+      simpa using tailMatch_open Q hQ o x rest ho hx
+  have hscan := scanName_name u _ _ htm hune hchars hlast
+  have hs := hsearch _ _ hscan
+  have hname := getTagName_of_search _ short u _ he hz hs hstrip hsne
+  have hQd : ∀ c ∈ Q, lineDelim c = false := by
+    rcases hQ with rfl | rfl
+    · simp
+    · intro c hc; simp [quote3] at hc; subst hc; decide
+  have hSd : ∀ c ∈ S, lineDelim c = false := by
+    have : S = [] ∨ S = [' '] := by
+      by_cases hex : extras (formatAttr as) desc = []
+      · exact hS.1 hex
+      · exact Or.inr (hS.2 hex)
+    rcases this with rfl | rfl
+    · simp
+    · intro c hc; simp at hc; subst hc; decide
+  have e : pre ++ (u ++ (Q ++ S ++ extras (formatAttr as) desc)) =
+      (pre ++ u ++ Q ++ S) ++ extras (formatAttr as) desc := by simp
+  rw [e] at hname ⊢
+  apply sections_read _ short as desc _ has hv hd ht
+  · rw [hname]; simp; omega
+  · intro c hc
+    simp only [List.mem_append] at hc
+    rcases hc with ((hc | hc) | hc) | hc
+    · exact hpre c hc
+    · exact hu c hc
+    · exact hQd c hc
+    · exact hSd c hc
+
+theorem pad_facts (pad short : Str) (hpad : ∀ c ∈ pad, c = ' ') (h : nameWF short = true) :
+    pad ++ short ≠ [] ∧ (∀ c ∈ pad ++ short, c ≠ '\'' ∧ isOpen c = false) ∧
+    (∀ c, (pad ++ short).getLast? = some c → isPySpace c = false) ∧ strip (pad ++ short) = short ∧
+    (∀ c ∈ pad ++ short, lineDelim c = false) := by
+  obtain ⟨hne, htr, hch⟩ := nameWF_spec h
+  refine ⟨by simp [hne], ?_, ?_, ?_, ?_⟩
+  · intro c hc
+    simp only [List.mem_append] at hc
+    rcases hc with hc | hc
+    · rw [hpad c hc]; exact ⟨by decide, by decide⟩
+    · have := lineDelim_spec (hch c hc).1
+      exact ⟨(hch c hc).2, by simp [isOpen, this.1, this.2.2.1]⟩
+  · intro c hc
+    rw [List.getLast?_append] at hc
+    cases hl : short.getLast? with
+    | none => simp [List.getLast?_eq_none_iff] at hl; exact absurd hl hne
+    | some x =>
+      simp [hl] at hc; subst hc
+      unfold trimmed at htr
+      simp [hl] at htr
+      exact htr.2
+  · induction pad with
+    | nil => simpa using strip_trimmed htr
+    | cons a t ih =>
+      have : a = ' ' := hpad a List.mem_cons_self
+      subst this
+      rw [List.cons_append, strip_space_cons]
+      exact ih (fun c hc => hpad c (List.mem_cons_of_mem _ hc))
+  · intro c hc
+    simp only [List.mem_append] at hc
+    rcases hc with hc | hc
+    · rw [hpad c hc]; decide
+    · exact (hch c hc).1
+
+theorem getLast?_append_some (a b : Str) (d : Char) (h : b.getLast? = some d) : (a ++ b).getLast? = some d := by
+  rw [List.getLast?_append, h]; rfl
+
+theorem trimmed_of (s : Str) (c d : Char) (hh : s.head? = some c) (hl : s.getLast? = some d)
+    (hc : isPySpace c = false) (hd : isPySpace d = false) : trimmed s = true := by
+  simp [trimmed, hh, hl, hc, hd]
+
+theorem getLast?_some_of_ne_nil (s : Str) (h : s ≠ []) : ∃ d, s.getLast? = some d := by
+  cases hl : s.getLast? with
+  | none => simp [List.getLast?_eq_none_iff] at hl; exact absurd hl h
+  | some d => exact ⟨d, rfl⟩
+
+theorem trimmed_last {s : Str} {d : Char} (h : trimmed s = true) (hl : s.getLast? = some d) : isPySpace d = false := by
+  unfold trimmed at h
+  simp [hl] at h
+  exact h.2
+
+theorem lineWF_spec {l : Nat} {short : Str} {as : Attrs} {desc : Option Str} (h : lineWF l short as desc = true) :
+    nameWF short = true ∧ attrsWF as = true ∧
+    (as.all fun kv => kv.2.all fun v => v.all (!lineDelim ·)) = true ∧ descWF desc = true ∧
+    hasSub extendHere (rowBody l short (extras (formatAttr as) desc)) = false ∧
+    hasSub zwEntity (rowBody l short (extras (formatAttr as) desc)) = false := by
+  unfold lineWF at h
+  simp only [Bool.and_eq_true, Bool.not_eq_true'] at h
+  exact ⟨h.1.1.1.1.1, h.1.1.1.1.2, h.1.1.1.2, h.1.1.2, h.1.2, h.2⟩
+
+theorem stars_props (n : Nat) : (stars n).length = n ∧ (∀ c ∈ stars n, c = '*') := by
+  simp [stars]
+
+theorem tagLevel_stars (n : Nat) (rest : Str) (hn : 0 < n) (hr : ∃ c t, rest = c :: t ∧ c ≠ '*') :
+    tagLevel (stars n ++ rest) = some n := by
+  obtain ⟨c, t, rfl, hc⟩ := hr
+  obtain ⟨h1, _⟩ := stars_take_drop n (c :: t) (by intro x hx; simp at hx; subst hx; exact hc)
+  unfold tagLevel
+  simp only [h1, (stars_props n).1, List.length_append, List.length_cons]
+  have : (n == n + (t.length + 1)) = false := by simp
+  have h0 : (n == 0) = false := by simp; omega
+  simp [this, h0]
+
+theorem quote3_prefix_stars (n : Nat) (rest : Str) : quote3.isPrefixOf (stars (n + 1) ++ rest) = false := by
+  have : ('\'' == '*') = false := by decide
+  simp [stars, List.replicate_succ, quote3, List.isPrefixOf_cons_cons, this]
+
+/-! ### wiki entry lines -/
+
+theorem line_roundtrip_core (l : Nat) (short : Str) (as : Attrs) (desc : Option Str)
+    (h : lineWF l short as desc = true) (ht : descTrimmed desc = true) :
+    cleanLine (tagLine l short (extras (formatAttr as) desc)) =
+        .ok (some (rowBody l short (extras (formatAttr as) desc))) ∧
+      readEntry (rowBody l short (extras (formatAttr as) desc)) = .ok (short, as, desc) ∧
+      quote3.isPrefixOf (rowBody l short (extras (formatAttr as) desc)) = (l == 0) ∧
+      (0 < l → tagLevel (rowBody l short (extras (formatAttr as) desc)) = some l) := by
+  obtain ⟨hn, has, hv, hd, he, hz⟩ := lineWF_spec h
+  obtain ⟨hsne, hstr, hsch⟩ := nameWF_spec hn
+  have hclean := extras_chars as desc has hv hd
+  have hslt : ∀ c ∈ short, c ≠ '<' := fun c hc => (lineDelim_spec (hsch c hc).1).2.2.2.2
+  have hq : ∀ c ∈ quote3, c ≠ '<' := by intro c hc; simp [quote3] at hc; subst hc; decide
+  cases l with
+  | zero =>
+    -- root line
+    obtain ⟨f1, f2, f3, f4, f5⟩ := pad_facts [] short (by simp) hn
+    simp only [List.nil_append] at f1 f2 f3 f4 f5
+    have hcur : ∀ c ∈ quote3 ++ short ++ quote3, c ≠ '<' := by
+      intro c hc
+      simp only [List.mem_append] at hc
+      rcases hc with (hc | hc) | hc
+      · exact hq c hc
+      · exact hslt c hc
+      · exact hq c hc
+    have hread : ∀ S, ((extras (formatAttr as) desc = [] → S = [] ∨ S = [' ']) ∧
+          (extras (formatAttr as) desc ≠ [] → S = [' '])) →
+        hasSub extendHere (quote3 ++ (short ++ (quote3 ++ S ++ extras (formatAttr as) desc))) = false →
+        hasSub zwEntity (quote3 ++ (short ++ (quote3 ++ S ++ extras (formatAttr as) desc))) = false →
+        readEntry (quote3 ++ (short ++ (quote3 ++ S ++ extras (formatAttr as) desc))) = .ok (short, as, desc) := by
+      intro S hS he' hz'
+      apply row_read quote3 short quote3 S short as desc _ f1 f2 f3 f4 hsne (Or.inr rfl) hS _ f5 has hv hd ht he' hz'
+      · intro t k hs
+        simpa [quote3] using searchName_root short t k hs
+      · intro c hc; simp [quote3] at hc; subst hc; decide
+    by_cases hex : extras (formatAttr as) desc = []
+    · have hrb : rowBody 0 short (extras (formatAttr as) desc) = quote3 ++ short ++ quote3 := by
+        simp [rowBody, hex]
+      rw [hrb] at he hz ⊢
+      have htl : tagLine 0 short (extras (formatAttr as) desc) = quote3 ++ short ++ quote3 := by
+        simp [tagLine, flush, hex]
+      rw [htl]
+      refine ⟨?_, ?_, ?_, by intro h0; exact absurd h0 (by simp)⟩
+      · apply cleanLine_plain _ (by simp [quote3]) hcur
+        exact trimmed_of _ '\'' '\'' (by simp [quote3]) (getLast?_append_some _ quote3 '\'' (by simp [quote3]))
+          (by decide) (by decide)
+      · have := hread [] ⟨fun _ => Or.inl rfl, fun hne => absurd hex hne⟩ (by simpa [hex] using he)
+          (by simpa [hex] using hz)
+        simpa [hex] using this
+      · simp [quote3]
+    · have hemp : (extras (formatAttr as) desc).isEmpty = false := by simpa using hex
+      have hrb : rowBody 0 short (extras (formatAttr as) desc) =
+          (quote3 ++ short ++ quote3) ++ ' ' :: extras (formatAttr as) desc := by
+        simp [rowBody, hemp]
+      rw [hrb] at he hz ⊢
+      have htl : tagLine 0 short (extras (formatAttr as) desc) =
+          (quote3 ++ short ++ quote3) ++ ' ' :: tagOpen ++ extras (formatAttr as) desc ++ tagClose := by
+        simp [tagLine, flush, hemp]
+      rw [htl]
+      refine ⟨?_, ?_, ?_, by intro h0; exact absurd h0 (by simp)⟩
+      · exact cleanLine_written _ _ hcur ⟨'\'', ['\'', '\''] ++ short ++ quote3, by simp [quote3], by decide⟩ hclean
+      · have := hread [' '] ⟨fun h0 => absurd h0 hex, fun _ => rfl⟩ (by simpa using he) (by simpa using hz)
+        simpa using this
+      · simp [quote3]
+  | succ n =>
+    have hpre : ∀ c ∈ stars (n + 1), lineDelim c = false := by
+      intro c hc; rw [(stars_props (n + 1)).2 c hc]; decide
+    have hprelt : ∀ c ∈ stars (n + 1), c ≠ '<' := by
+      intro c hc; rw [(stars_props (n + 1)).2 c hc]; decide
+    have hread : ∀ pad S, (∀ c ∈ pad, c = ' ') → pad ≠ [] →
+        ((extras (formatAttr as) desc = [] → S = [] ∨ S = [' ']) ∧ (extras (formatAttr as) desc ≠ [] → S = [' '])) →
+        hasSub extendHere (stars (n + 1) ++ ((pad ++ short) ++ ([] ++ S ++ extras (formatAttr as) desc))) = false →
+        hasSub zwEntity (stars (n + 1) ++ ((pad ++ short) ++ ([] ++ S ++ extras (formatAttr as) desc))) = false →
+        readEntry (stars (n + 1) ++ ((pad ++ short) ++ ([] ++ S ++ extras (formatAttr as) desc))) =
+          .ok (short, as, desc) := by
+      intro pad S hpad hpne hS he' hz'
+      obtain ⟨f1, f2, f3, f4, f5⟩ := pad_facts pad short hpad hn
+      apply row_read (stars (n + 1)) (pad ++ short) [] S short as desc _ f1 f2 f3 f4 hsne (Or.inl rfl) hS hpre f5
+        has hv hd ht he' hz'
+      intro t k hs
+      have := searchName_star n (pad ++ short) t k (by
+        obtain ⟨a, r, rfl⟩ := List.exists_cons_of_ne_nil hpne
+        intro c hc
+        have ha : a = ' ' := hpad a List.mem_cons_self
+        simp only [List.cons_append, List.head?_cons, Option.some.injEq] at hc
+        rw [← hc, ha]; decide) hs
+      simpa [(stars_props (n + 1)).1] using this
+    by_cases hhash : short.getLast? = some '#'
+    · -- value-taking child: the name goes inside the nowiki part
+      have hrb : rowBody (n + 1) short (extras (formatAttr as) desc) =
+          stars (n + 1) ++ ' ' :: ' ' :: short ++ ' ' :: extras (formatAttr as) desc := by
+        simp [rowBody, hhash]
+      rw [hrb] at he hz ⊢
+      have htl : tagLine (n + 1) short (extras (formatAttr as) desc) =
+          (stars (n + 1) ++ [' ']) ++ ' ' :: tagOpen ++ (short ++ ' ' :: extras (formatAttr as) desc) ++ tagClose := by
+        simp [tagLine, flush, hhash, hsne]
+      rw [htl]
+      refine ⟨?_, ?_, by simpa using quote3_prefix_stars n _, ?_⟩
+      · have hcl : Clean (short ++ ' ' :: extras (formatAttr as) desc) := by
+          unfold Clean
+          have e : short ++ ' ' :: extras (formatAttr as) desc ++ tagClose =
+              (short ++ [' ']) ++ (extras (formatAttr as) desc ++ tagClose) := by simp
+          rw [e, removeTags_noLt _ _ (by
+            intro c hc
+            simp only [List.mem_append, List.mem_singleton] at hc
+            rcases hc with hc | rfl
+            · exact hslt c hc
+            · decide), hclean]
+          simp
+        have := cleanLine_written (stars (n + 1) ++ [' ']) _ (by
+            intro c hc
+            simp only [List.mem_append, List.mem_singleton] at hc
+            rcases hc with hc | rfl
+            · exact hprelt c hc
+            · decide) ⟨'*', stars n ++ [' '], by simp [stars, List.replicate_succ], by decide⟩ hcl
+        simpa using this
+      · have := hread [' ', ' '] [' '] (by simp) (by simp)
+          ⟨fun _ => Or.inr rfl, fun _ => rfl⟩ (by simpa using he) (by simpa using hz)
+        simpa using this
+      · intro _
+        have := tagLevel_stars (n + 1) (' ' :: ' ' :: short ++ ' ' :: extras (formatAttr as) desc) (by omega)
+          ⟨' ', _, rfl, by decide⟩
+        simpa using this
+    · have hcur : ∀ c ∈ stars (n + 1) ++ ' ' :: short, c ≠ '<' := by
+        intro c hc
+        simp only [List.mem_append, List.mem_cons] at hc
+        rcases hc with hc | rfl | hc
+        · exact hprelt c hc
+        · decide
+        · exact hslt c hc
+      have hhd : ∃ c t, stars (n + 1) ++ ' ' :: short = c :: t ∧ isPySpace c = false :=
+        ⟨'*', stars n ++ ' ' :: short, by simp [stars, List.replicate_succ], by decide⟩
+      have hlvl : ∀ rest, tagLevel (stars (n + 1) ++ ' ' :: rest) = some (n + 1) :=
+        fun rest => tagLevel_stars (n + 1) (' ' :: rest) (by omega) ⟨' ', _, rfl, by decide⟩
+      by_cases hex : extras (formatAttr as) desc = []
+      · have hrb : rowBody (n + 1) short (extras (formatAttr as) desc) = stars (n + 1) ++ ' ' :: short := by
+          simp [rowBody, hhash, hex]
+        rw [hrb] at he hz ⊢
+        have htl : tagLine (n + 1) short (extras (formatAttr as) desc) = stars (n + 1) ++ ' ' :: short := by
+          simp [tagLine, flush, hhash, hex]
+        rw [htl]
+        refine ⟨?_, ?_, by simpa using quote3_prefix_stars n _, fun _ => hlvl _⟩
+        · apply cleanLine_plain _ (by simp) hcur
+          obtain ⟨d, hd⟩ := getLast?_some_of_ne_nil short hsne
+          exact trimmed_of _ '*' d (by simp [stars, List.replicate_succ])
+            (getLast?_append_some _ _ d (getLast?_append_some [' '] short d hd)) (by decide) (trimmed_last hstr hd)
+        · have := hread [' '] [] (by simp) (by simp) ⟨fun _ => Or.inl rfl, fun hne => absurd hex hne⟩
+            (by simpa [hex] using he) (by simpa [hex] using hz)
+          simpa [hex] using this
+      · have hemp : (extras (formatAttr as) desc).isEmpty = false := by simpa using hex
+        have hrb : rowBody (n + 1) short (extras (formatAttr as) desc) =
+            (stars (n + 1) ++ ' ' :: short) ++ ' ' :: extras (formatAttr as) desc := by
+          simp [rowBody, hhash, hemp]
+        rw [hrb] at he hz ⊢
+        have htl : tagLine (n + 1) short (extras (formatAttr as) desc) =
+            (stars (n + 1) ++ ' ' :: short) ++ ' ' :: tagOpen ++ extras (formatAttr as) desc ++ tagClose := by
+          simp [tagLine, flush, hhash, hemp]
+        rw [htl]
+        refine ⟨cleanLine_written _ _ hcur hhd hclean, ?_, by simpa using quote3_prefix_stars n _, ?_⟩
+        · have := hread [' '] [' '] (by simp) (by simp) ⟨fun h0 => absurd h0 hex, fun _ => rfl⟩
+            (by simpa using he) (by simpa using hz)
+          simpa using this
+        · intro _
+          have := hlvl (short ++ ' ' :: extras (formatAttr as) desc)
+          simpa using this
+
+
+/-- `line_roundtrip_partial` in the form used by the tag-section proof (stated here because the section lemmas
+live in this namespace) -/
+theorem C05aux.line (e : Entry) (hl : lineWF (level e.name) (shortName e.name) e.attrs e.desc = true)
+    (htr : descTrimmed e.desc = true) :
+    cleanLine (tagLine (level e.name) (shortName e.name) (extras (formatAttr e.attrs) e.desc)) =
+        .ok (some (rowBody (level e.name) (shortName e.name) (extras (formatAttr e.attrs) e.desc))) ∧
+      readEntry (rowBody (level e.name) (shortName e.name) (extras (formatAttr e.attrs) e.desc)) =
+        .ok (shortName e.name, e.attrs, e.desc) ∧
+      quote3.isPrefixOf (rowBody (level e.name) (shortName e.name) (extras (formatAttr e.attrs) e.desc)) =
+        (level e.name == 0) ∧
+      (0 < level e.name →
+        tagLevel (rowBody (level e.name) (shortName e.name) (extras (formatAttr e.attrs) e.desc)) = some (level e.name)) :=
+  line_roundtrip_core (level e.name) (shortName e.name) e.attrs e.desc hl htr
+
+/-! ### the tag section -/
+
+theorem splitOn_ne_nil (d : Char) (s : Str) : splitOn d s ≠ [] := by
+  induction s with
+  | nil => simp [splitOn]
+  | cons c cs ih =>
+    simp only [splitOn]
+    split
+    · simp
+    · cases h : splitOn d cs with
+      | nil => exact absurd h ih
+      | cons p ps => simp [consHead]
+
+theorem splitOn_length (d : Char) (s : Str) : (splitOn d s).length = s.count d + 1 := by
+  induction s with
+  | nil => simp [splitOn]
+  | cons c cs ih =>
+    simp only [splitOn, List.count_cons]
+    by_cases h : (c == d) = true
+    · simp [h, ih]
+    · have h' : (c == d) = false := by simpa using h
+      simp only [h', Bool.false_eq_true, ↓reduceIte, Nat.add_zero]
+      cases hs : splitOn d cs with
+      | nil => exact absurd hs (splitOn_ne_nil d cs)
+      | cons p ps => rw [hs] at ih; simpa [consHead] using ih
+
+theorem joinWith_cons_head (sep : Str) (c : Char) (p : Str) (ps : List Str) :
+    joinWith sep ((c :: p) :: ps) = c :: joinWith sep (p :: ps) := by
+  cases ps <;> simp [joinWith]
+
+theorem join_split (d : Char) (s : Str) : joinWith [d] (splitOn d s) = s := by
+  induction s with
+  | nil => simp [splitOn, joinWith]
+  | cons c cs ih =>
+    simp only [splitOn]
+    cases hs : splitOn d cs with
+    | nil => exact absurd hs (splitOn_ne_nil d cs)
+    | cons p ps =>
+      rw [hs] at ih
+      by_cases h : (c == d) = true
+      · have : c = d := by simpa using h
+        simp [h, joinWith, ih, this]
+      · have h' : (c == d) = false := by simpa using h
+        simp [h', consHead, joinWith_cons_head, ih]
+
+theorem joinWith_snoc (sep : Str) (dl : List Str) (x : Str) (h : dl ≠ []) :
+    joinWith sep (dl ++ [x]) = joinWith sep dl ++ sep ++ x := by
+  induction dl with
+  | nil => exact absurd rfl h
+  | cons a t ih =>
+    cases t with
+    | nil => simp [joinWith]
+    | cons b t' =>
+      have := ih (by simp)
+      simp only [List.cons_append] at this ⊢
+      simp [joinWith, this]
+
+theorem rebuild_name (name : Str) :
+    (if (splitOn '/' name).dropLast.isEmpty then shortName name
+     else joinWith ['/'] (splitOn '/' name).dropLast ++ '/' :: shortName name) = name := by
+  have hne := splitOn_ne_nil '/' name
+  have hdl := List.dropLast_concat_getLast hne
+  have hl : (splitOn '/' name).getLast? = some ((splitOn '/' name).getLast hne) := List.getLast?_eq_some_getLast hne
+  generalize (splitOn '/' name).getLast hne = last at hdl hl
+  have hshort : shortName name = last := by simp [shortName, hl]
+  have hj := join_split '/' name
+  rw [hshort]
+  by_cases hd : (splitOn '/' name).dropLast = []
+  · rw [hd] at hdl ⊢
+    simp only [List.nil_append] at hdl
+    rw [← hdl] at hj
+    simpa [joinWith] using hj
+  · have : (splitOn '/' name).dropLast.isEmpty = false := by simpa using hd
+    rw [this]
+    simp only [Bool.false_eq_true, ↓reduceIte]
+    rw [← hdl, joinWith_snoc _ _ _ hd] at hj
+    simpa using hj
+
+theorem cleanLine_nil : cleanLine [] = .ok none := by
+  simp [cleanLine, strip, lstrip, rstrip, nowikiErr, findSub, tagOpen, tagClose, removeTags]
+
+theorem entryWF_spec {e : Entry} (h : entryWF e = true) :
+    lineWF (level e.name) (shortName e.name) e.attrs e.desc = true := by
+  unfold entryWF at h
+  simp only [Bool.and_eq_true] at h
+  exact h.2
+
+theorem ofWikiFrom_step (rest : List Str) (prev : List Str) (e : Entry) (hwf : entryWF e = true)
+    (htr : descTrimmed e.desc = true)
+    (h1 : (splitOn '/' e.name).length - 1 ≤ prev.length)
+    (h2 : (splitOn '/' e.name).dropLast = prev.take ((splitOn '/' e.name).length - 1)) :
+    ofWikiFrom (tagLine (level e.name) (shortName e.name) (entryExtras e) :: rest) prev =
+      match ofWikiFrom rest (splitOn '/' e.name) with
+      | .error x => .error x
+      | .ok es => .ok (e :: es) := by
+  have hl := entryWF_spec hwf
+  have hlevel : level e.name = (splitOn '/' e.name).length - 1 := by
+    simp [level, splitOn_length]
+  obtain ⟨hn, _⟩ := lineWF_spec hl
+  obtain ⟨hsne, _, _⟩ := nameWF_spec hn
+  have hsemp : (shortName e.name).isEmpty = false := by simpa using hsne
+  have hrebuild := rebuild_name e.name
+  have hmk : (⟨e.name, e.attrs, e.desc⟩ : Entry) = e := by cases e; rfl
+  unfold entryExtras
+  obtain ⟨c1, c2, c3, c4⟩ := C05aux.line e hl htr
+  rw [ofWikiFrom]
+  simp only [c1, c2, c3, hsemp]
+  cases hlv : level e.name with
+  | zero =>
+    rw [hlv] at c3 c4
+    rw [← hlevel, hlv] at h2
+    simp only [List.take_zero] at h2
+    simp only [beq_self_eq_true, ↓reduceIte, Bool.false_eq_true]
+    rw [h2] at hrebuild
+    simp only [List.isEmpty_nil, ↓reduceIte] at hrebuild ⊢
+    rw [hrebuild, hmk]
+    cases ofWikiFrom rest (splitOn '/' e.name) <;> rfl
+  | succ n =>
+    rw [hlv] at c3 c4
+    have c4' := c4 (by omega)
+    rw [← hlevel, hlv] at h1 h2
+    have hne : ((n + 1) == 0) = false := by simp
+    simp only [hne, Bool.false_eq_true, ↓reduceIte, c4']
+    by_cases hlt : n + 1 < prev.length
+    · simp only [hlt, ↓reduceIte]
+      rw [← h2, hrebuild, hmk]
+      cases ofWikiFrom rest (splitOn '/' e.name) <;> rfl
+    · have heq : prev.length = n + 1 := by omega
+      have hgt : ¬ (n + 1 > prev.length) := by omega
+      simp only [hlt, hgt, ↓reduceIte]
+      have : prev = prev.take (n + 1) := by rw [← heq, List.take_length]
+      rw [this, ← h2, hrebuild, hmk]
+      cases ofWikiFrom rest (splitOn '/' e.name) <;> rfl
+
+theorem ofWikiFrom_toWiki (ts : List Entry) (prev : List Str)
+    (hwf : ∀ e ∈ ts, entryWF e = true ∧ descTrimmed e.desc = true) (hp : Preorder prev ts = true) :
+    ofWikiFrom (toWiki ts) prev = .ok ts := by
+  induction ts generalizing prev with
+  | nil => simp [toWiki, toWikiLeveled, ofWikiFrom]
+  | cons e r ih =>
+    obtain ⟨hw, ht⟩ := hwf e List.mem_cons_self
+    simp only [Preorder, Bool.and_eq_true, decide_eq_true_eq, beq_iff_eq] at hp
+    obtain ⟨⟨h1, h2⟩, h3⟩ := hp
+    have ih' := ih (splitOn '/' e.name) (fun x hx => hwf x (List.mem_cons_of_mem _ hx)) h3
+    have hstep := ofWikiFrom_step (toWiki r) prev e hw ht h1 h2
+    rw [ih'] at hstep
+    have e1 : toWiki (e :: r) = (if level e.name == 0 then [[]] else []) ++
+        tagLine (level e.name) (shortName e.name) (entryExtras e) :: toWiki r := by
+      simp [toWiki, toWikiLeveled]
+    rw [e1]
+    by_cases hz : (level e.name == 0) = true
+    · simp only [hz, ↓reduceIte, List.cons_append, List.nil_append]
+      rw [ofWikiFrom, cleanLine_nil]
+      exact hstep
+    · simp only [hz, Bool.false_eq_true, ↓reduceIte, List.nil_append]
+      exact hstep
+
 end HedVerif.SchemaIO
 
 namespace HedVerif.C05
@@ -795,26 +1510,8 @@ open HedVerif.SchemaIO
 distinct, and whose values are non-empty, trimmed and free of `,` `=` and newline, the reader
 (`parse_attribute_string`) applied to what the writer (`_format_tag_attributes`) produces gives the dictionary
 back: same names in the same order, every value list (multi-valued attributes included) intact. -/
-theorem attr_roundtrip (as : Attrs) (h : attrsWF as = true) : parseAttr (formatAttr as) = .ok as := by
-  unfold parseAttr formatAttr
-  cases has : as with
-  | nil => simp [formatItems, joinWith]
-  | cons kv r =>
-    rw [← has]
-    have hitems : formatItems as ≠ [] := by
-      subst has
-      obtain ⟨k, vs⟩ := kv
-      cases vs <;> simp [formatItems]
-    obtain ⟨x, xs, hx⟩ := List.exists_cons_of_ne_nil hitems
-    have hxne : x ≠ [] := (item_props h (x := x) (by rw [hx]; exact List.mem_cons_self)).2.1
-    have hjoin : (joinWith [',', ' '] (formatItems as)).isEmpty = false := by
-      rw [hx]; simpa using joinWith_ne_nil _ x xs hxne
-    rw [hjoin]
-    simp only [Bool.false_eq_true, ↓reduceIte]
-    rw [splitOn_join _ hitems (fun y hy => (item_props h hy).2.2),
-      map_strip_spaced _ (fun y hy => (item_props h hy).1)]
-    obtain ⟨hnd, hwf⟩ := attrsWF_spec h
-    simpa using parseItems_format as [] hwf hnd (by intro kv _; rfl)
+theorem attr_roundtrip (as : Attrs) (h : attrsWF as = true) : parseAttr (formatAttr as) = .ok as :=
+  parseAttr_formatAttr as h
 
 /-- multi-valued attributes (`suggestedTag=a, suggestedTag=b`) survive with all their values, in order -/
 theorem attr_multivalue_survives (as : Attrs) (h : attrsWF as = true) (k : Str) (vs : List Str)
@@ -823,6 +1520,59 @@ theorem attr_multivalue_survives (as : Attrs) (h : attrsWF as = true) (k : Str) 
 
 example : attrsWF [(['a'], []), (['b'], [['c'], ['d', ' ', 'e']])] = true := by decide
 example : formatAttr [(['a'], []), (['b'], [['c'], ['d']])] = "a, b=c, b=d".toList := by decide
+
+/-! ### wiki entry lines -/
+
+/-- **Wiki lines round-trip (descriptions trimmed).**  For every level, name, attribute dictionary and
+description satisfying the explicit predicate `lineWF` (name non-empty, trimmed, free of `{}[]<` and of the quote
+character; attributes as in `attr_roundtrip` with values free of `{}[]<`; description non-empty, free of `{}[]`
+and of literal nowiki tags; the reserved texts `extend here` and `&#8203;` absent from the line) and whose
+description has no leading or trailing blank: the line written by `_write_tag_entry` (quoted name at level 0,
+`*** Name` below, a `#` name inside the nowiki part) passes the reader's per-line cleaning and `_create_entry`
+returns exactly the name, the attributes and the description; the root marker and the `*` count give the level
+back. -/
+theorem line_roundtrip_partial (l : Nat) (short : Str) (as : Attrs) (desc : Option Str)
+    (h : lineWF l short as desc = true) (ht : descTrimmed desc = true) :
+    cleanLine (tagLine l short (extras (formatAttr as) desc)) =
+        .ok (some (rowBody l short (extras (formatAttr as) desc))) ∧
+      readEntry (rowBody l short (extras (formatAttr as) desc)) = .ok (short, as, desc) ∧
+      quote3.isPrefixOf (rowBody l short (extras (formatAttr as) desc)) = (l == 0) ∧
+      (0 < l → tagLevel (rowBody l short (extras (formatAttr as) desc)) = some l) :=
+  line_roundtrip_core l short as desc h ht
+
+/-- **#20, on the model.**  An entry that satisfies every clause of `lineWF` but whose description starts with a
+blank: the written line is accepted by the reader, which returns the description *without* the blank
+(`description.strip()` in `_create_entry`; the TSV reader does the same), while the XML format keeps it. -/
+theorem line_counterexample :
+    lineWF 1 ['A'] [] (some [' ', 'x']) = true ∧
+    (cleanLine (tagLine 1 ['A'] (extras (formatAttr []) (some [' ', 'x'])))).toOption =
+      some (some (rowBody 1 ['A'] (extras (formatAttr []) (some [' ', 'x'])))) ∧
+    (readEntry (rowBody 1 ['A'] (extras (formatAttr []) (some [' ', 'x'])))).toOption =
+      some ((['A'], [], some ['x']) : Str × Attrs × Option Str) :=
+  ⟨by decide, by decide, by decide⟩
+
+/-! ### the tag section -/
+
+/-- **Tag sections round-trip (descriptions trimmed).**  For every list of tag entries with long names that is a
+preorder listing (`Preorder`: each tag's parent path is a prefix of the previous tag's path — the order of
+`all_entries`), all of whose path segments are well-formed names and whose lines satisfy `lineWF`, with trimmed
+descriptions: reading the lines that `_output_tags` writes (blank line and quoted name for roots, one `*` per
+level below) with `_read_schema` reconstructs exactly the same entries — long names from the level stack,
+attributes with all their values, descriptions. -/
+theorem wiki_tags_roundtrip_partial (ts : List Entry)
+    (hwf : ∀ e ∈ ts, entryWF e = true ∧ descTrimmed e.desc = true) (hp : Preorder [] ts = true) :
+    ofWiki (toWiki ts) = .ok ts :=
+  ofWikiFrom_toWiki ts [] hwf hp
+
+/-- a small forest satisfying all hypotheses (root, child with attributes, value-taking grandchild) -/
+example :
+    let ts : List Entry :=
+      [⟨['E'], [], some ['d']⟩,
+       ⟨['E', '/', 'F'], [(['s'], [['E'], ['G']]), (['x'], [])], none⟩,
+       ⟨['E', '/', 'F', '/', '#'], [(['t'], [])], some ['a', ' ', '=', '"']⟩,
+       ⟨['G'], [], none⟩]
+    (ts.all fun e => entryWF e && descTrimmed e.desc) = true ∧ Preorder [] ts = true ∧
+      (ofWiki (toWiki ts)).toOption = some ts := by decide
 
 /-! ### refusal and library handling of `process_schema` -/
 
@@ -896,6 +1646,33 @@ theorem merged_keeps_everything (library withStandard : Str) (hl : ',' ∉ libra
     · intro _ e
       have : List.filter (fun _ : Str × List Str => true) e.attrs = e.attrs := List.filter_eq_self.mpr (by simp)
       simp [written, writeAttrs, this]
+
+/-- **Rooted library tags are re-levelled.**  One step of the `_output_tags` loop in an unmerged save: when it
+reaches a library tag whose parent is a tag of the partner schema (not written in this mode), the tag is written
+at level 0 — as a root of the library file — and the tags that follow are shifted by its depth. -/
+theorem rooted_relevel (f : Flags) (all r : List Entry) (e pe : Entry) (adj : Nat) (done : List Str) (p : Str)
+    (hm : f.saveMerged = false) (hb : f.saveBase = false) (hl : f.saveLib = true)
+    (he : hasLib e = true) (hp : parentName e.name = some p) (hfind : all.find? (·.name == p) = some pe)
+    (hpe : hasLib pe = false) (hd : done.contains p = false) (hlv : level e.name ≠ 0) :
+    outputTagsFrom f all (e :: r) adj done =
+      (0, written f e) :: outputTagsFrom f all r (level e.name) (e.name :: done) := by
+  have hs : shouldSkip f e = false := by simp [shouldSkip, hb, hl, he]
+  have hz : (level e.name == 0) = false := by simpa using hlv
+  have hd' : p ∉ done := by simpa using hd
+  rw [outputTagsFrom]
+  simp [hs, hz, hp, hfind, he, hpe, hm, hd']
+
+/-- ... and a library tag below another library tag keeps the shift of its rooted ancestor -/
+theorem child_keeps_shift (f : Flags) (all r : List Entry) (e pe : Entry) (adj : Nat) (done : List Str) (p : Str)
+    (hb : f.saveBase = false) (hl : f.saveLib = true)
+    (he : hasLib e = true) (hp : parentName e.name = some p) (hfind : all.find? (·.name == p) = some pe)
+    (hpe : hasLib pe = true) (hlv : level e.name ≠ 0) :
+    outputTagsFrom f all (e :: r) adj done =
+      (level e.name - adj, written f e) :: outputTagsFrom f all r adj (e.name :: done) := by
+  have hs : shouldSkip f e = false := by simp [shouldSkip, hb, hl, he]
+  have hz : (level e.name == 0) = false := by simpa using hlv
+  rw [outputTagsFrom]
+  simp [hs, hz, hp, hfind, he, hpe]
 
 /-! ### newline escape of the TSV struct sheet -/
 
